@@ -15,7 +15,8 @@ changed `/repo`):
   specification automaton `Spec.cellD` disagree, as blank-separated items `state:charcode:generated-op:spec-op`
   (`charcode` 128 = the default row / every other character, 1114112 = end of text; an op is `class/status/marks` or
   `none`); `OK` alone when they agree.
-* `SPECDEVS` → `OK` followed by the listed deviations as `state:charcode:code-op:grammar-op` items.
+* `SPECDEVS` → `OK` followed by the listed deviations as `state:charcode:code-op:grammar-op` items (`charcode` is the
+  representative of the deviating class).
 -/
 open Lex
 namespace Drv
@@ -38,8 +39,8 @@ def cmdSpec : List String → Option String
       | none => "BADREQ"
       | some cfg => " ".intercalate ("OK" :: ((Spec.diffCells cfg i.toNat!).map showCell).eraseDups))
   | ["SPECDEVS"] =>
-    some (" ".intercalate ("OK" :: Spec.devs.map fun d =>
-      showCell (d.st, d.rep, d.op, if d.rep == Spec.endCode then Spec.atEnd 7 d.st else Spec.cell 7 d.st d.rep)))
+    some (" ".intercalate ("OK" :: allS.flatMap fun s => (Spec.devsOf s).map fun d =>
+      showCell (s, d.rep, d.op, if d.rep == Spec.endCode then Spec.atEnd 7 s else Spec.cell 7 s d.rep)))
   | _ => none
 
 end Drv
